@@ -8,6 +8,9 @@ CONSTANTS
   ReqCodes = {1, 3}
   MaxReq = 1
   DhcpCaps = {300}
+  BigCode = 43
+  BigLens = {0}
+  IdClasses = {"rand"}
   NICs = {"nicA"}
   Parts = {"build"}
 INVARIANTS Export ModelOK
